@@ -221,7 +221,7 @@ MACROS = {"bounce": ("disc", "reg", "conn", "uod"),      # the engine loses the 
           "bounce1": ("disc", "reg", "conn", "uod"),     # the same, enabled only while no bounce has happened yet
           "next": ("stop1", "rs2")}                      # run r1 ends, run r2 begins
 
-_TAG_EV = re.compile(r"^t([AB]+)([+\-=])(\d*)(n?)$")
+_TAG_EV = re.compile(r"^t([ABM]+)([+\-=])(\d*)(n?)$")          # M = the system tag Mark (a text value; not one of the uod readings)
 
 
 def parse_tag_event(ev: str):
@@ -421,6 +421,9 @@ class Sys:
             snap = [self._system_state_tag(m.clock)]
             for tag in sorted(m.last_report):
                 t = m.last_report[tag]
+                if tag == "M":
+                    snap.append(PM.TagValue(name="Mark", tick_time=t, value=f"mark at {t}", value_unit=None))
+                    continue
                 snap.append(PM.TagValue(name=tag, tick_time=t, value=value_of(tag, t), value_unit="u"))
             self._send(EM.TagsUpdatedMsg(tags=snap, run_id=m.eng_run))
             return r
@@ -464,6 +467,9 @@ class Sys:
                 t = m.last_report[tag]
             sent.append((tag, t))
         for tag, t in sent:
+            if tag == "M":
+                tvs.append(PM.TagValue(name="Mark", tick_time=t, value=f"mark at {t}", value_unit=None))
+                continue
             tvs.append(PM.TagValue(name=tag, tick_time=t, value=value_of(tag, t), value_unit="u"))
         tvs.append(self._system_state_tag(sent[0][1]))        # every report carries the engine's System State
         run_id = None if no_run else m.eng_run
